@@ -14,6 +14,7 @@ import (
 	"sort"
 	"strconv"
 	"strings"
+	"sync"
 	"syscall"
 	"time"
 
@@ -431,15 +432,37 @@ func driver(args []string) int {
 	m := &merged{cov: map[string]map[string]int64{}, cnt: map[string]int64{}}
 	var inconcl []string
 	var vios []*core.Violation
+	// stage 2 for every shard that died: regenerate its journalled case and confirm it alone
+	// (a process per case; the confirmations of several dead shards run side by side)
+	type confirmed struct {
+		v    *core.Violation
+		note string
+	}
+	dead := map[int]*confirmed{}
+	var cwg sync.WaitGroup
+	var cmu sync.Mutex
 	for _, ch := range kids {
 		rep := readReport(filepath.Join(work, fmt.Sprintf("report.%d.json", ch.idx)))
 		if rep == nil || !rep.Done {
-			// the shard died: stage 2 — regenerate the journalled case and confirm it alone.
-			v, note := confirmCrash(self, p, tier, seed, work, ch)
-			if v != nil {
-				vios = append(vios, v)
-			} else {
-				inconcl = append(inconcl, note)
+			ch := ch
+			cwg.Add(1)
+			go func() {
+				defer cwg.Done()
+				v, note := confirmCrash(self, p, tier, seed, work, ch)
+				cmu.Lock()
+				dead[ch.idx] = &confirmed{v, note}
+				cmu.Unlock()
+			}()
+		}
+	}
+	cwg.Wait()
+	for _, ch := range kids {
+		rep := readReport(filepath.Join(work, fmt.Sprintf("report.%d.json", ch.idx)))
+		if rep == nil || !rep.Done {
+			if d := dead[ch.idx]; d != nil && d.v != nil {
+				vios = append(vios, d.v)
+			} else if d != nil {
+				inconcl = append(inconcl, d.note)
 			}
 			continue
 		}
@@ -785,9 +808,16 @@ func confirmOnce(self string, p *core.Property, tier, tmp, work string, ch *chil
 	timedOut := false
 	select {
 	case err = <-done:
-	case <-time.After(10 * time.Minute):
-		_ = cmd.Process.Kill()
-		err = <-done
+	case <-time.After(replayWall):
+		// no verdict from the clock: ask the runtime what every goroutine is doing, then decide
+		// on what the dump shows (a goroutine parked inside the library) and on the CPU consumed
+		_ = cmd.Process.Signal(syscall.SIGQUIT)
+		select {
+		case err = <-done:
+		case <-time.After(10 * time.Second):
+			_ = cmd.Process.Kill()
+			err = <-done
+		}
 		timedOut = true
 	}
 	of.Close()
@@ -810,6 +840,17 @@ func confirmOnce(self string, p *core.Property, tier, tmp, work string, ch *chil
 	if cmd.ProcessState != nil {
 		code = cmd.ProcessState.ExitCode()
 	}
+	if timedOut && cpuUsed < 5*time.Second {
+		// the replay sat there for two minutes without using the processor: blocked, not busy
+		if full, err := os.ReadFile(outPath); err == nil {
+			if frame, state := parkedInLibrary(string(full)); frame != "" {
+				v.Signature = "blocked-forever:" + frame
+				v.Detail = fmt.Sprintf("%s; replayed alone, the case made no progress for %s and used %.1fs of CPU; the goroutine dump shows a goroutine parked (%s) in %s\n%s", why, replayWall, cpuUsed.Seconds(), state, frame, out)
+				return v, "", true
+			}
+		}
+		return nil, fmt.Sprintf("%s; replay alone blocked for %s (cpu=%.1fs) with no goroutine parked inside the library\n%s", why, replayWall, cpuUsed.Seconds(), out), true
+	}
 	switch {
 	case code == core.MemExitCode:
 		v.Signature = "unbounded-memory"
@@ -831,6 +872,46 @@ func confirmOnce(self string, p *core.Property, tier, tmp, work string, ch *chil
 	}
 	_ = err
 	return nil, fmt.Sprintf("%s; journalled case did not reproduce alone in five attempts (exit=%d cpu=%.1fs timedOut=%v)\nshard log tail:\n%s\nreplay output:\n%s", why, code, cpuUsed.Seconds(), timedOut, logTail, out), false
+}
+
+// replayWall bounds one confirmation replay. It is a watchdog, not a verdict: what is
+// reported depends on the goroutine dump and the CPU time, see confirmOnce.
+const replayWall = time.Minute
+
+// parkedInLibrary scans a goroutine dump (SIGQUIT) for a goroutine that waits on a lock,
+// channel or condition with a frame of the library under test on its stack, and returns
+// the innermost such frame and the wait state.
+func parkedInLibrary(dump string) (frame, state string) {
+	for _, blk := range strings.Split(dump, "\n\n") {
+		lines := strings.Split(strings.TrimSpace(blk), "\n")
+		if len(lines) < 2 || !strings.HasPrefix(lines[0], "goroutine ") {
+			continue
+		}
+		i, j := strings.Index(lines[0], "["), strings.LastIndex(lines[0], "]")
+		if i < 0 || j < i {
+			continue
+		}
+		st := lines[0][i+1 : j]
+		waiting := false
+		for _, w := range []string{"semacquire", "sync.Mutex.Lock", "sync.RWMutex", "chan receive", "chan send", "select", "sync.Cond.Wait", "sync.WaitGroup.Wait"} {
+			if strings.HasPrefix(st, w) {
+				waiting = true
+			}
+		}
+		if !waiting {
+			continue
+		}
+		for _, l := range lines[1:] {
+			if strings.HasPrefix(l, "github.com/free5gc/nas") {
+				f := l
+				if k := strings.LastIndex(f, "("); k > 0 {
+					f = f[:k]
+				}
+				return strings.TrimPrefix(f, "github.com/free5gc/nas/"), st
+			}
+		}
+	}
+	return "", ""
 }
 
 func tail(path string, n int) string {
